@@ -271,6 +271,8 @@ def tag_documents(rng, quick):
             form = rng.randint(0, 4)
             pool = decl if (decl and rng.random() < 0.8) else TAG_NAMES
             tags = b"Tags " + b" ".join(rng.sample(pool, min(len(pool), rng.randint(1, 2)))) + b"\n"
+            # the method-level Tags of a block that also has URL-level Tags name OTHER tags (most of the time)
+            tags_m = b"Tags " + b" ".join(rng.sample(pool, min(len(pool), rng.randint(1, 2)))) + b"\n"
             m = rng.choice([b"GET", b"POST", b"PUT"])
             if (m, p) in used or (form != 0 and p in urls):
                 continue
@@ -281,11 +283,11 @@ def tag_documents(rng, quick):
             elif form == 1:
                 urls.add(p)
                 lines.append(b"URL " + p + b"\n" + (b"  " + tags if rng.random() < 0.5 else b"") + b"  " + m + b"\n" +
-                             (b"    " + tags if rng.random() < 0.3 else b"") + b"    200 any\n")
+                             (b"    " + tags_m if rng.random() < 0.4 else b"") + b"    200 any\n")
             elif form == 2:
                 urls.add(p)
-                lines.append(b"URL " + p + b"\n  Protocol json-rpc-2.0\n  Method m" + (b"\n    " + tags if rng.random() < 0.5 else b"\n") +
-                             b"  Method n\n")
+                lines.append(b"URL " + p + b"\n" + (b"  " + tags if rng.random() < 0.4 else b"") + b"  Protocol json-rpc-2.0\n  Method m" +
+                             (b"\n    " + tags_m if rng.random() < 0.5 else b"\n") + b"  Method n\n")
                 used.update((x, p) for x in (b"GET", b"POST", b"PUT"))
             elif form == 3:
                 urls.add(p)
